@@ -330,7 +330,7 @@ for col, cname in [("w", "White"), ("b", "Black")]:
     add(f"c01_expand_{col}", ["C01"], "thorough",
         f"expand_piece_targets for {cname}: one Standard move per target bit (<=27), origin preserved, capture tag == enemy piece on the destination, appended after existing entries, no duplicates",
         ["expand_piece_targets", "PieceSet::get", "Bitboard::pop_lsb"], "fully symbolic Disjoint board; one symbolic (square, targets) entry with <=27 targets disjoint from own pieces", stubs=[NOSPILL], module=MG, unwind=30, est_s=400, heavy=True, native=[])
-    add(f"c01_slider_{col}", ["C01", "C06"], "thorough",
+    add(f"c01_slider_{col}", ["C01", "C06", "C11"], "thorough",
         f"generate_sliding_targets for {cname} (k-piece shape: own king + <=2 further own pieces of symbolic kind and square, opponent side fully symbolic): one entry per own rook/bishop/queen with targets == lookup(square) minus own pieces (queen: rook|bishop lookup), nothing for other pieces, lookups given the whole-board occupancy",
         ["Targets::generate_sliding_targets"], "k-piece shape, see claim", stubs=[NOSPILL, UFSTUB], module=MG, unwind=66, est_s=600, heavy=True, native=[])
     for pc in ["knight", "king"]:
@@ -457,7 +457,7 @@ PROPS = {
     "C11": dict(
         outside="masks with more than 3 (quick) / 4 (thorough) bits in the make_table loop lemma; the precompile crate's own functions (a changed generator is caught through M1 on the draw it produces); termination of the magic search",
         explanation="M1 (per square, all 2^64 occupancies x all mask subsets sharing the slot: what make_table writes is the reference ray set; segments disjoint and in range), M2 (the ray walker equals the reference rays), M3 (MIR/z3: the fill loop visits every subset and writes table[magic_index(b)] = slider_moves(b)), M5 (knight / king tables), on the constants of this run's build and (thorough) of the builds under <repo>/target.",
-        title="Attack geometry tables are exact for every square, occupancy and build", jobs=16, jobs_thorough=8,
+        title="Attack geometry tables are exact for every square, occupancy and build", jobs=16, jobs_thorough=8, timeout_thorough=4500,
         technique=TECH + "; per-square all-occupancy queries over this build's real magic constants (2^64 occupancies x all mask subsets per square), reference ray walker as oracle; plus a bounded loop lemma for make_table decided by z3 over the function's MIR (symbolic executor of the nightly MIR dump, bit-vector queries)",
         level_text="Bounded model checking over the build-generated constants: for each of the 128 (piece, square) pairs the solver shows that for every 64-bit occupancy and every mask subset that shares its slot, the value make_table writes (slider_moves) equals the reference ray walk -- so last-writer-wins cannot hurt and extra pieces elsewhere do not matter; segments are disjoint and in range; slider_moves equals the reference rays for symbolic square and blockers; knight/king tables equal the reference for every square. Each check run sees a fresh draw of the constants (the build script runs inside the Kani build).",
         level_note="make_table's fill loop is decided on its MIR by z3 for masks of <= 3 bits (one arbitrary square and entry; slider_moves / magic_index uninterpreted there, their contracts are M1/M2); CBMC cannot get through make_table (measured). The generator crate's own functions (precompile) are not encoded: a changed generator is caught through M1 on the draw it produces, which every run regenerates. The build script's search terminating is outside the claim. Trusted: Kani/CBMC/CaDiCaL, z3 4.8.12, the MIR text parser in lib/mirloop.py, reference rays in verif_ref.rs.",
